@@ -115,7 +115,20 @@ def install():
 
 def special(rng):
     """shapes the random generator rarely hits"""
-    how = rng.choice(["unit_cycle", "nullable_chain", "shared_suffix", "self_unit", "empty"])
+    how = rng.choice(["unit_cycle", "nullable_chain", "shared_suffix", "self_unit", "empty", "cnf_names", "cnf_names"])
+    if how == "cnf_names":
+        # the grammar already owns helper-like variables C#CNF#k with gaps, and several long bodies with shared
+        # inner suffixes, in varying production order
+        T = lambda i: ["T", i]
+        V = lambda i: ["V", i]
+        suf = [T(0), V(1), T(1)]
+        prods = [[0, [T(1), T(0)] + suf], [0, [V(1), T(1)] + suf[1:]], [0, [T(0), T(0), T(1), T(1)] + suf[1:]],
+                 [1, [T(0)]], [1, [T(1), V(2), T(0), T(1)]], [2, [T(1)]], [2, [T(0), T(0)] + suf[1:]]]
+        rng.shuffle(prods)
+        prods = prods[:rng.randint(4, 7)]
+        if not any(p[0] == 0 for p in prods):
+            prods.append([0, [V(1), T(0)]])
+        return {"nv": 3, "nt": 2, "start": 0, "prods": prods, "vc": "cnfnames", "as_set": rng.random() < 0.5}
     if how == "unit_cycle":
         n = rng.randint(2, 3)
         prods = [[i, [["V", (i + 1) % n]]] for i in range(n)] + [[rng.randrange(n), [["T", 0]]]]
@@ -175,6 +188,18 @@ def run_case(c, stats):
     if ok:
         call(nf.is_normal_form)
         call(nf.to_normal_form)
+    # passes applied to the results of passes (analyses cached on the source may travel with the result)
+    for r in (u, e, n):
+        if r is not None and not isinstance(r, BaseException):
+            call(r.remove_useless_symbols)
+            call(r.is_normal_form)
+    if ok and not isinstance(e, BaseException):
+        pass
+    ok2, e2 = call(g.remove_epsilon)
+    if ok2:
+        call(e2.remove_useless_symbols)
+        call(e2.eliminate_unit_productions)
+        call(e2.to_normal_form)
     g2 = gcfg.build(c)
     call(g2.to_normal_form)          # fresh object: normal form without the earlier analyses cached
     return nt
